@@ -43,10 +43,26 @@ def call(f, *a, **k) -> str:
     return r if isinstance(r, str) else arr_str(r)
 
 
-def tagged(dims, sizes, base=0) -> xr.DataArray:
+def tagged(dims, sizes, base=0, rng=None) -> xr.DataArray:
+    """an array whose every element is its own C-order position (+ base); with `rng`, in one of several storage
+    types and memory layouts (column-major, a strided view of a larger array, read-only) - the values, which is
+    all that ravel / wind may depend on, are the same"""
     shape = [sizes[d] for d in dims]
     n = int(np.prod(shape)) if shape else 1
-    return xr.DataArray((np.arange(n) + base).reshape(shape), dims=list(dims))
+    data = (np.arange(n) + base).reshape(shape)
+    if rng is not None:
+        data = data.astype(rng.choice(['i8', 'i8', 'f8', 'f4', 'i4', 'i2', 'u2']))
+        layout = rng.choice(['C', 'C', 'F', 'strided', 'readonly'])
+        if layout == 'F':
+            data = np.asfortranarray(data)
+        elif layout == 'strided' and data.ndim >= 1:
+            big = np.zeros(tuple(2 * k for k in data.shape), dtype=data.dtype)
+            view = big[tuple(slice(None, None, 2) for _ in data.shape)]
+            view[...] = data
+            data = view
+        elif layout == 'readonly':
+            data.setflags(write=False)
+    return xr.DataArray(data, dims=list(dims))
 
 
 def grids_spec(built) -> str:
@@ -130,7 +146,7 @@ def run(ctx) -> None:
                 extra = rng.sample(list(extra_pool), ne)
                 dims = list(gdims) + extra
                 rng.shuffle(dims)
-                da = tagged(dims, sizes, base=rng.randint(0, 9))
+                da = tagged(dims, sizes, base=rng.randint(0, 9), rng=rng)
                 a = arr_str(da)
                 lin = rng.choice([None, None, 'cells', 'index', extra[0] if extra else 'lin'])
                 line = f"ravel {gs} {dflt} {a} {lin or '-'}"
@@ -178,6 +194,10 @@ def run(ctx) -> None:
                 if wout != expect:
                     ctx.oracle_fail('wind-of-ravel-differs', {'recipe': recipe, 'dims': dims, 'kind': kind, 'mode': mode, 'linear_dimension': lin},
                                     f'wind(ravel(v)) = {wout[:120]} expected {expect[:120]}')
+                # values are only moved: their storage type is what it was
+                if flat.dtype != da.dtype or (wound is not None and wound.dtype != da.dtype):
+                    ctx.oracle_fail('storage-type-changed', {'recipe': recipe, 'dims': dims, 'kind': kind, 'dtype': str(da.dtype)},
+                                    f'{da.dtype} data: ravel gives {flat.dtype}, wind gives {None if wound is None else wound.dtype}')
             # arbitrary linear data, linear dimension at every position
             for _ in range(3):
                 ne = rng.randint(0, 3)
